@@ -92,7 +92,7 @@ func (e *env) mldsaSection(rng *hlib.Rng) {
 		inst pmldsa.Instance
 	}{{"44", imldsa.MLDSA44, pmldsa.MLDSA44}, {"65", imldsa.MLDSA65, pmldsa.MLDSA65}, {"87", imldsa.MLDSA87, pmldsa.MLDSA87}}
 	variants := []pmldsa.Variant{pmldsa.VariantTink, pmldsa.VariantNoPrefix}
-	rounds := hlib.N(1, 8)
+	rounds := hlib.N(2, 10)
 	for round := 0; round < rounds; round++ {
 		for _, set := range sets {
 			o.Case()
@@ -248,7 +248,7 @@ func (e *env) pssSection(rng *hlib.Rng) {
 	c := 0
 	for _, salt := range []int{20, 32, 48, 64} {
 		for hi, h := range hashes {
-			for rep := 0; rep < hlib.N(1, 4); rep++ {
+			for rep := 0; rep < hlib.N(2, 6); rep++ {
 				o.Case()
 				vi := (c + rep) % 4
 				c++
@@ -337,7 +337,7 @@ func (e *env) ecdsaSection(rng *hlib.Rng) {
 	c := 0
 	for ci, cv := range curves {
 		for ei := range encs {
-			for rep := 0; rep < hlib.N(2, 8); rep++ {
+			for rep := 0; rep < hlib.N(4, 12); rep++ {
 				o.Case()
 				vi := c % 4
 				c++
